@@ -747,6 +747,50 @@ theorem C02_mirror {s : Schema} {rank trank : String → Nat} (wf : WF s rank) (
     Mirror s (dictOf s roots) :=
   C02_mirror_partial wf wft hn roots hr (Or.inl C02_descriptors_created_before_inits)
 
+/-- `BaseTypeDescriptor()` / `BaseType()`: for every type expression whose chain of referent links ends (`BaseEnd`: through
+    renames of any length, named and unnamed aggregates of any nesting), the getter applied to the registered dictionary answers
+    that end, given as many loop iterations as there are links (the C++ loop is unbounded; the model's budget is
+    `(number of types + 1) * 64`). -/
+theorem C02_base_follows_links {s : Schema} (roots : List String) {t : TRef} {d : DRef} {c : Nat}
+    (h : BaseEnd s t d c) (hc : c < ((dictOf s roots).types.length + 1) * 64) :
+    baseOf (dictOf s roots).types (refOf t) = d :=
+  baseTD_end C02_descriptors_created_before_inits h _ hc
+
+/-- `IsAggrType()` and `AggrElemTypeDescriptor()` of a type any number of renames above a named aggregate: the type is reported
+    as an aggregate, and its element descriptor is the element's own descriptor when the element is written in place, and the
+    root of the element's rename chain when the element is a type name. -/
+theorem C02_aggr_elem_follows_chain {s : Schema} {trank : String → Nat} (wft : WFT s trank) (roots : List String)
+    {n : String} {r : TypeDecl} (h : RootOf s n r) {k : AggKind} {bn : Option (Int × Upper)} {u o : Bool} {el : TRef}
+    (hb : r.body = .alias (.aggr k bn u o el)) :
+    isAggrOf (dictOf s roots).types (.named n) = true ∧
+    ((∀ m, el ≠ .named m) → elemOf (dictOf s roots).types (.named n) = refOf el) ∧
+    (∀ m rm, el = .named m → RootOf s m rm → (∀ e, rm.body ≠ .alias (.entity e)) →
+      elemOf (dictOf s roots).types (.named n) = .named rm.name) := by
+  have hnr := C02_nonref_follows_chain wft roots h (by intro e; rw [hb]; simp)
+  have hview : viewOf (dictOf s roots).types (.named r.name) = some (aggFT k, refOf el) := by
+    show viewOf (s.types.map (typeOf s)) (.named r.name) = _
+    rw [viewOf_named s r.name r (rootOf_find h)]
+    unfold typeOf typeOfM
+    rw [hb, C02_descriptors_created_before_inits]; rfl
+  have hne : (refOf el == DRef.null) = false := by cases el <;> rfl
+  refine ⟨?_, ?_, ?_⟩
+  · unfold isAggrOf ftOf
+    rw [hnr, hview]
+    cases k <;> rfl
+  · intro hnn
+    unfold elemOf
+    rw [hnr, hview]
+    simp only [hne, Bool.false_eq_true, ↓reduceIte]
+    unfold nonRefOf nonRefFuel
+    rw [C02_nonref_loop_unbounded]
+    exact nonRefTD_inplace _ _ el hnn
+  · intro m rm hel hrm hent
+    unfold elemOf
+    rw [hnr, hview]
+    simp only [hne, Bool.false_eq_true, ↓reduceIte]
+    subst hel
+    exact C02_nonref_follows_chain wft roots hrm hent
+
 /-- the excluded shape of `C02_mirror_partial`: with descriptors created in the select's own init function the
     registered referent of `TYPE sl = SET [1:?] OF sel` is null, which mirrors nothing (corpus d5) -/
 def exAggrOfSelect : Schema :=
